@@ -50,11 +50,21 @@ class QueryRun(ke.KernelRun):
     def run_file(self, path, relevant_ops=None, oracle=None):
         divs, st = super().run_file(path, relevant_ops, None)
         # crash detection: the harness flushes the header of a Query before touching the library
-        iblocks = lockstep.split_scripts(st["impl_out"])
+        marks = []
+        iblocks = lockstep.split_scripts(st["impl_out"], marks)
+        tainted = {}
+        for m in marks:
+            if m["oracle"] == "__taint__": tainted[m["script"]] = min(tainted.get(m["script"], 1 << 30), m["step"])
+        self.qstats["tainted_scripts"] = self.qstats.get("tainted_scripts", 0) + len(tainted)
         for name, blocks in iblocks.items():
             for i, b in enumerate(blocks):
                 if b[0].startswith("!! CRASH"):
                     prev = blocks[i - 1][0] if i else ""
+                    if name in tainted and tainted[name] <= i:
+                        # the history had left the contract (e.g. set_cell put a halfface into two cells) before the crash: not judged
+                        self.qstats["crashes_out_of_contract"] = self.qstats.get("crashes_out_of_contract", 0) + 1
+                        self.out_of_contract = getattr(self, "out_of_contract", set()) | {name}
+                        continue
                     self.crashes.append({"script": name, "step": i, "op": prev, "lines": ke.script_blocks(path).get(name, [])[:i]})
         mblocks = lockstep.split_scripts(st["model_out"])
         for name, blocks in mblocks.items():
@@ -141,6 +151,7 @@ def judge_queries(ctx, qr, oracles=("C05",)):
                                "script": c["lines"]})
     for d in qr.divs:
         if d.script in crashed_scripts: continue     # already accounted for above
+        if d.component == "crash-out-of-contract": continue
         ctx.broken.append({"kind": "correspondence", "name": "lock-step iterator model / real iterators, component %s" % d.component,
                            "detail": dict(d.as_dict(), script_lines=getattr(d, "lines", None))})
         if len(ctx.broken) > 6: break
@@ -152,7 +163,7 @@ def fill_coverage(ctx, qr):
     ctx.cov["evaluations"] += qr.qstats["accessor_lines"]
     ctx.cov["distinct_nontrivial"] += len(qr.distinct)
     crashed = {c["script"] for c in qr.crashes}
-    unexpected = [d for d in qr.divs if d.script not in crashed]
+    unexpected = [d for d in qr.divs if d.script not in crashed and d.component != "crash-out-of-contract"]
     ctx.cov["traces_validated_against_impl"] = qr.qstats["accessor_lines"] if not unexpected else 0
     ctx.cov["unexpected_divergences"] = len(unexpected)
     ctx.cov["query_stats"] = {k: v for k, v in qr.qstats.items() if k not in ("classes",)}
